@@ -57,6 +57,17 @@ CHECKS.update({
          "The same seeded program with nil/empty/non-UTF-8/64 KiB arguments runs against two databases through the two API flavours; decisions and results must agree, rejected calls must leave no trace at any observation point, and reads must not change across flush or restart. Crash-image observation is provided by the C02 engine (C17 crash cases).",
          "nil byte slices correspond to empty strings; empty-key Delete only required to be invisible", "§3 C17", "E1"),
 })
+CHECKS.update({
+ "C05": ("exploration", "offline linearizability checking (porcupine v1.3.0, per-key partition, single-register model) of client histories recorded at the API boundary under forced rotations, live/driven compactions and seeded delays at tag-guarded hook points",
+         "Histories of 3..6 clients on 2..5 keys with unique written values are recorded with one monotonic clock while flushes and compactions overlap the calls (tiny memstore, 50us..1ms ticker or a chaos goroutine, delays between critical sections and one inside the reflection's critical section) and checked with porcupine; a checker timeout is inconclusive. Exploration over observed interleavings.",
+         "only interleavings that actually occurred are judged; the evidence counts flushes/compactions inside the client window and overlapping call pairs", "§3 C05", "E3"),
+ "C18": ("exploration", "Go race detector (-race build of the child, halt_on_error=0, reports parsed and de-duplicated by innermost go-sstables frames) + sequential-answer oracle over three concurrent workloads",
+         "One SimpleDB handle (8 goroutines, own+shared keys, rotations and compactions running), one SSTableReader (8..16 goroutines of Get/Contains/range scans) and one MMapReader (ReadNextAt/SeekNext) are exercised in the race-detector build across seeds and GOMAXPROCS {2,4,16}; any report touching go-sstables or the harness, any abnormal exit and any result differing from the sequential answer is a violation.",
+         "the race detector reports only races that happened in the observed executions; Scan() is outside the documented concurrent surface", "§3 C18", "E4"),
+ "C19": ("exploration", "resource census monitor: /proc/self/fd + /proc/self/maps filtered by directory and goroutine dump filtered by go-sstables frames, at quiescent points and after Close",
+         "Driven SimpleDB sessions with >=40 cycles are censused at every quiescent point (descriptors <= 4, mappings <= live tables + 3) and after Close (nothing left, no library goroutine, re-Open and RemoveAll work); live sessions are closed while a compaction is held in flight at a hook point; table and RecordIO readers/writers (incl. failed Opens and abandoned scans) must return to the baseline after Close.",
+         "Linux /proc is the ground truth; goroutine attribution by stack frames", "§3 C19", "E5"),
+})
 NOT_YET = {}
 props = [json.loads(l) for l in open(os.path.join(ROOT, "properties.jsonl"))]
 hooks_commits = []
@@ -99,6 +110,9 @@ m = {
  },
  "engines": [
    {"name": "E1", "path": "/verif/internal/props", "kind_free_text": "reference-model monitors shadowing real API calls, seeded case lists, child processes"},
+   {"name": "E3", "path": "/verif/internal/props/c05.go", "kind_free_text": "history recorder + porcupine linearizability checker"},
+   {"name": "E4", "path": "/verif/internal/props/c18.go", "kind_free_text": "race-detector runner: -race child, GORACE log parsing, report de-duplication"},
+   {"name": "E5", "path": "/verif/internal/props/c19.go", "kind_free_text": "resource census (/proc fds, maps, goroutine dump)"},
    {"name": "E6", "path": "/verif/internal/props/c11.go", "kind_free_text": "fault injection: failing iterators/writers (public interfaces + tag-guarded hooks) and RLIMIT_FSIZE kernel-level write failures in sub-processes"},
  ],
  "checks": checks,
